@@ -12,6 +12,7 @@ by the helper's body, parameters substituted and locals renamed, when the shape 
                      (local assignments substituted, `if c: return A` ... `return B` read as a conditional): the call is
                      replaced by that expression;
   * expression form  a call anywhere inside an expression, where the (synchronous) helper's body folds into ONE expression;
+  * tail form        `return self._h(a)`: the helper's returns are the caller's returns, its whole body replaces the statement;
   * block-value form `x = self._h(a)` / `return self._h(a)` where the body is statements followed by a single final
                      `return <expr>`: the statements are placed before the calling statement and the call becomes <expr>.
 
@@ -362,6 +363,19 @@ class _Inliner:
                                 self.names.append(h.name)  # type: ignore[attr-defined]
                                 out.append(st)
                                 continue
+                            # tail form: `return self._h(a)` -- the helper's returns ARE the caller's returns, so its whole body
+                            # takes the place of the statement (falling off its end returns None)
+                            if isinstance(st, ast.Return) and not neg:
+                                prep_t = self._prepared(h, call, is_method, caller_locals, allow_temps=True)
+                                if prep_t is not None:
+                                    hb_t, m_t, ren_t = prep_t
+                                    new_t = [ast.fix_missing_locations(t_) for t_ in self.temps] + subst(h, hb_t, m_t, ren_t)
+                                    if not new_t or not isinstance(new_t[-1], (ast.Return, ast.Raise)):
+                                        new_t.append(ast.copy_location(ast.Return(value=None), st))
+                                    out.extend(new_t)
+                                    self.count += 1
+                                    self.names.append(h.name)  # type: ignore[attr-defined]
+                                    continue
                             # block-value form: statements, then one final `return <expr>`
                             if hb and isinstance(hb[-1], ast.Return) and hb[-1].value is not None and not any(isinstance(x, ast.Return) for b in hb[:-1] for x in ast.walk(b)) and not neg and isinstance(st, (ast.Assign, ast.AnnAssign, ast.Return)):
                                 pre = subst(h, hb[:-1], m, ren)
